@@ -146,11 +146,12 @@ std::string prop_generate(Tape & t, int size) {
     go.allow_gaps = size > 30;
     go.sample_budget = 9000;
     go.allow_vsr = true;
-    Program p = gen_general(t, size, go);
+    bool big = t.chance(1, 5);
+    Program p = big ? gen_bigblock(t, size) : gen_general(t, size, go);
     p.close = t.chance(1, 2);
     mj::Value c = mj::Value::object();
     c.set("program", program_to_json(p));
-    c.set("stride", (long long) t.pick(std::vector<int64_t>{7, 11, 13, 17, 5, 3}));
+    c.set("stride", (long long) (big ? t.pick(std::vector<int64_t>{1, 2, 3}) : t.pick(std::vector<int64_t>{7, 11, 13, 17, 5, 3})));
     c.set("phase", (long long) t.range(0, 16));
     return mj::dump(c);
 }
